@@ -1638,7 +1638,7 @@ def run(chk):
                        "distinct key = (stream, function, shape, rank request, options, value class); non-trivial = more than one entry")
     chk.assumptions = ["exact-arithmetic semantics: floating-point rounding is not modelled (products compared with tolerance 1e-9)",
                        "numpy.linalg.svd is an oracle: its recorded answers are handed to the model; the theorems assume the SVD contract for the answers of a run",
-                       "lower bounds relative to the spectrum of the unfoldings of X and the TT-SVD root-sum-square upper bound are full theorems (C09_eckart_young, C09_tt_error_root_sum_square); the HOOI (n_iter_max > 0) bound against the tails of X is only tested",
+                       "lower bounds relative to the spectrum of the unfoldings of X and the TT-SVD root-sum-square upper bound are full theorems (C09_eckart_young, C09_tt_error_root_sum_square), and so is the Tucker bound with HOOI sweeps (C09_tucker_hooi_error_bound)",
                        "predicate thresholds: exact = 1e-9 relative; bounds with factor (1 +- 1e-8) and floor 1e-9 ||X||"]
     chk.trusted += ["numpy.linalg.svd (LAPACK gesdd) as SVD oracle for the implementation and, independently, for the predicates' singular values",
                     "NumPy reshape/transpose/moveaxis as modelled in Base/Tensor.v; n-mode product modelled at index level (Model/SvdDecomp.v mode_dot)",
